@@ -426,6 +426,14 @@ def setup(ctx):
         return f
     ctx.p_http = ctx.register(Part("http", c18.gen_ops, lambda case: [], judge_http))
 
+    def judge_http_conc(ctx, case, resp):
+        # present at the last deploy + no modification since = evaluable: also while other clients send requests that modify nothing
+        f = c18.judge_concurrent(ctx, case, resp)
+        if f is not None and f.sig.startswith("C18/"):
+            f.sig = "C17/http/" + f.sig[4:]
+        return f
+    ctx.p_http_conc = ctx.register(Part("http-concurrent", c18.gen_concurrent, lambda case: [], judge_http_conc))
+
 
 LATE_TAGS = ("G",)      # models added to the alphabet later: in the quick tier they join the enumeration to a smaller depth (cost)
 OPS_CORE = [op for op in OPS if not (op[0] in ("add", "replace") and op[1] in LATE_TAGS) and not (op[0] == "remove" and (op[1], op[2]) in [WM.key_of(t) for t in LATE_TAGS] + WM.PADDED_KEYS)]
@@ -498,6 +506,8 @@ def run(ctx):
         ctx.forall(ctx.p_startup, ctx.scale(1500, 100000), batch=20)
     if not ctx.stop():
         ctx.forall(ctx.p_http, ctx.scale(1500, 100000), batch=1)
+    if not ctx.stop():
+        ctx.forall(ctx.p_http_conc, ctx.scale(12, 400), batch=1)
 
 
 if __name__ == "__main__":
